@@ -362,20 +362,24 @@ theorem wv_ok_iff_hist (o : Opts) (cs : List Call) (e : Enc) (v : Bytes) (hlen :
           unquote (out.drop (beforeToken e (valueKind v)).length) ∉ innermostNames o (histToks o cs)) :=
   writeValue_ops_iff o cs e v hlen h
 
-/-- **A raw value acts like its tokens.**  From any state reached by an accepted script, an accepted
-`WriteValue v` and an accepted token-by-token writing of `valueToks o v` lead to the same output, the
-same abstract machine (frames: kinds and element counts of all open containers, hence depth and
-indices) and the same tracked names; and the tokens of `v` are viable after the history. -/
-theorem wv_as_tokens (o : Opts) (cs : List Call) (e e1 e2 : Enc) (v : Bytes)
+/-- **A raw value acts like its tokens** (unconditionally).  From any state reached by an accepted script, if
+`WriteValue v` is accepted then writing the tokens `valueToks o v` one by one with `WriteToken` is accepted too —
+every unescaped string is well-formed UTF-8, every member name inside `v` is fresh in its object as read back
+from the emitted literal (slice C11's bridge `GlueEncQuote`), every token is viable — and both ways lead to the
+same output, the same abstract machine (kinds and element counts of all open containers, hence depth and
+indices) and the same tracked names. -/
+theorem wv_as_tokens (o : Opts) (cs : List Call) (e e1 : Enc) (v : Bytes)
     (hlen : 2 * cs.length + (valueToks o v).length + 2 < 2^61)
-    (h : runOps (Encoder.new o) cs = some e) (h1 : writeValue e v = (e1, none))
-    (h2 : runToks e (valueToks o v) = some e2) :
-    e1.out = e2.out ∧ abs e1.m = abs e2.m ∧ (o.allowDup = false → e1.ns = e2.ns) ∧
+    (h : runOps (Encoder.new o) cs = some e) (h1 : writeValue e v = (e1, none)) :
+    ∃ e2, runToks e (valueToks o v) = some e2 ∧
+      e1.out = e2.out ∧ abs e1.m = abs e2.m ∧ (o.allowDup = false → e1.ns = e2.ns) ∧
       Viable o.maxDepth ((histToks o cs ++ valueToks o v).map kindOf) := by
   obtain ⟨fs, ns, hI, hrun, htrack, hout⟩ := runOps_new o cs e (by omega) h
-  obtain ⟨toks, rest, fs', ns', ht, hout1, htr, hI1⟩ := writeValue_inv hI (by omega) v h1
+  obtain ⟨toks, rest, fs', ns', ht, hout1, htr, hI1, hgood⟩ := writeValue_inv hI (by omega) v h1
   have hvt : valueToks o v = toks := by simp [valueToks, ht]
-  rw [hvt] at h2 hlen ⊢
+  rw [hvt] at hlen ⊢
+  obtain ⟨e2, h2⟩ := good_run toks hI htr hgood (by omega)
+  refine ⟨e2, h2, ?_⟩
   obtain ⟨hr1, hr2⟩ := trackRun_run _ htr
   obtain ⟨hI2, _⟩ := runToks_inv o toks hI (by omega) h2
   rw [hr2] at hI2
@@ -385,9 +389,8 @@ theorem wv_as_tokens (o : Opts) (cs : List Call) (e e1 e2 : Enc) (v : Bytes)
   refine ⟨by rw [hout1, hout2], by rw [hI1.abs_eq, hI2.abs_eq], fun hd => ?_, ?_⟩
   · rw [(hI1.names hd).1, (hI2.names hd).1]
   · simp only [Viable, List.map_append]
-    have : PDA.run o.maxDepth PDA.init (List.map kindOf (histToks o cs) ++ List.map kindOf toks) = some fs' := by
-      have := run_append_some hrun hr1
-      exact this
+    have : PDA.run o.maxDepth PDA.init (List.map kindOf (histToks o cs) ++ List.map kindOf toks) = some fs' :=
+      run_append_some hrun hr1
     simp [this]
 
 /-! ### The encoder's validator and the grammar -/
